@@ -11,7 +11,7 @@ CLAIM = {
             "indexed by shape.offset(Position::new(row, col)) with row drawn from a range ending at most at shape.height and col from a range ending at most "
             "at shape.width (containment, with C07's Shape lemma); "
             "(b) the three io::Write adapters feed the written buffer through one Cursor to a stateful decoder kept in `self`, forward every decoded "
-            "item, and return cursor.position() (or buf.len() only where the sink reported it is full) — with C03's fold theorem the produced cells "
+            "item, and return cursor.position() (or buf.len() only where the sink reported it is full; 0 / buf.len() on an edge taken only when buf is empty is the same value) — with C03's fold theorem the produced cells "
             "do not depend on how bytes are split across writes; (c) measuring (Text/str layout) and writing (put_cell) call the same Cell::layout "
             "routine with wraps and width taken from corresponding sources; (c') WRAPS-AGREE: every put_cell reached from Text::render / str::render "
             "(followed through closures and helper bodies such as put_text/put_char) goes to a writer whose wraps flag - the constant of TerminalWriter::new, "
@@ -267,6 +267,38 @@ def _bool_test(body, call_bb, t):
     return None
 
 
+_LEN = r"slice::len\(arg2\)"
+_EMPTY_TRUE = re.compile(r"^(slice::is_empty\(arg2\)|Eq\(%s, 0\)|Eq\(0, %s\)|Lt\(%s, 1\)|Le\(%s, 0\)|Gt\(1, %s\)|Ge\(0, %s\))$" % ((_LEN,) * 6))
+_EMPTY_FALSE = re.compile(r"^(Ne\(%s, 0\)|Ne\(0, %s\)|Gt\(%s, 0\)|Ge\(%s, 1\)|Lt\(0, %s\)|Le\(1, %s\))$" % ((_LEN,) * 6))
+
+
+def _empty_buf_edges(body):
+    """edges (switch_bb, target) taken exactly when the written buffer (arg2) is empty: the true edge of `buf.is_empty()` / `buf.len() == 0`
+    (any spelling, also negated), the false edge of `!buf.is_empty()` / `buf.len() > 0`, the `0` arm of `match buf.len()`"""
+    out = []
+    for bb, blk in enumerate(body.blocks):
+        t = blk["term"]
+        if t["k"] != "switch" or blk["cleanup"]:
+            continue
+        e, pol = expr(body, t["d"]), True
+        while e.startswith("Not(") and e.endswith(")"):
+            e, pol = e[4:-1], not pol
+        if re.fullmatch(_LEN, e) and pol:
+            if "0" in t["vals"] and t["targets"][t["vals"].index("0")] != t["otherwise"]:
+                out.append((bb, t["targets"][t["vals"].index("0")]))
+            continue
+        if t["vals"] != ["0"]:
+            continue
+        if _EMPTY_FALSE.match(e):
+            pol = not pol
+        elif not _EMPTY_TRUE.match(e):
+            continue
+        tgt = t["otherwise"] if pol else t["targets"][0]
+        if t["otherwise"] != t["targets"][0]:
+            out.append((bb, tgt))
+    return out
+
+
 def _ret_sources(body):
     """what the return value is made of: ('const', bb, int) / ('call', bb, term) / ('other', bb, rv), through moves of whole locals
     (an inlined helper returns through `dest = move _ret`)"""
@@ -381,6 +413,59 @@ def _contained_index(ie, le):
     return True, ""
 
 
+def _getters(prog):
+    """short call head (as sa.flow.expr prints it) -> field suffix, for crate functions that only return a field path of their single
+    argument (`fn max(&self) -> Size { self.max }`): the call term `BoxConstraint::max(x)` means `x.max`.  A head shared by bodies that are
+    not all the same getter is left alone."""
+    g = prog.__dict__.get("_c09_getters")
+    if g is None:
+        from ..flow import _short_path
+        cand = {}
+        for b in prog.bodies:
+            if not b.file.startswith("src/") or b.kind not in ("Fn", "AssocFn"):
+                continue
+            suf = None
+            if b.arg_count == 1 and not any(True for _ in b.calls()) and len(prog.by_path[b.path]) == 1:
+                e = expr(b, {"k": "copy", "place": {"l": 0, "p": []}})
+                m = re.fullmatch(r"arg1((?:\.\w+)+)", e)
+                suf = m.group(1) if m else None
+            cand.setdefault(_short_path(b.path), set()).add(suf)
+        g = {h: next(iter(v)) for h, v in cand.items() if len(v) == 1 and None not in v}
+        prog.__dict__["_c09_getters"] = g
+    return g
+
+
+def _thru_getters(prog, e):
+    """rewrite every `Getter(x)` in a canonical term to `x.field` (innermost first, to a fixpoint)"""
+    g = _getters(prog)
+    for _ in range(8):
+        changed = False
+        for m in re.finditer(r"(?<![\w:])((?:\w+::)+\w+)\(", e):
+            suf = g.get(m.group(1))
+            if suf is None:
+                continue
+            depth, j = 0, None
+            for i in range(m.end() - 1, len(e)):
+                if e[i] in "([{":
+                    depth += 1
+                elif e[i] in ")]}":
+                    depth -= 1
+                    if depth == 0:
+                        j = i
+                        break
+            if j is None:
+                continue
+            inner = e[m.end():j]
+            if len(_split_top(inner)) != 1 or not re.fullmatch(r"[\w.@:]+|.*\)", inner.strip()):
+                continue
+            e = e[:m.start()] + inner.strip() + suf + e[j + 1:]
+            changed = True
+            break
+        if not changed:
+            break
+    return e
+
+
 SURF_MUTATORS = r"^surface::SurfaceMut::(get_mut|data_mut|iter_mut|fill|fill_with|clear|insert|set|view_mut|as_mut)$|<.* as surface::SurfaceMut>::(get_mut|data_mut|iter_mut|fill|fill_with|clear|insert|set|view_mut|as_mut)$"
 
 
@@ -411,7 +496,7 @@ def run(ctx):
             if t is curs[0][1]:
                 continue
             for a in t["args"]:
-                if expr(b, a) == "arg2" and not call_matches(t, r"slice::<impl \[T\]>::len$"):
+                if expr(b, a) == "arg2" and not call_matches(t, r"slice::<impl \[T\]>::(len|is_empty)$"):
                     other.append(callee_name(t))
         # returns
         rets = []
@@ -420,7 +505,12 @@ def run(ctx):
                 rets.append((i, expr(b, s["rv"]["fields"][0]), s))
         pos_rets = [r for r in rets if r[1] == "(Cursor::position(Cursor::new(arg2)) as usize)"]
         len_rets = [r for r in rets if r[1] == "slice::len(arg2)"]
-        bad_rets = [r for r in rets if r not in pos_rets and r not in len_rets]
+        # an exact fast path for the empty buffer: `Ok(0)` / `Ok(buf.len())` on an edge taken only when buf is empty is what the general path returns
+        # there (a Cursor over nothing stays at position 0; by C03's fold theorem the decoder takes no step on zero bytes)
+        empty_edges = _empty_buf_edges(b)
+        empty_rets = [r for r in rets if r[1] in ("0", "slice::len(arg2)") and any(cfg.edge_dominates(sb, tg, r[0]) for sb, tg in empty_edges)]
+        len_rets = [r for r in len_rets if r not in empty_rets]
+        bad_rets = [r for r in rets if r not in pos_rets and r not in len_rets and r not in empty_rets]
         ok2 = bool(pos_rets) and not bad_rets and not other
         # len(buf) return only where the sink said it is full: dominated by the false edge of put_char's result
         ok3 = True
@@ -510,7 +600,7 @@ def run(ctx):
                 continue
             if up is None:
                 up = _upvar_env(prog, b)
-            args = [re.sub(r"\barg1\.\d+\b", lambda m: up.get(m.group(0), m.group(0)), expr(bi, a)) for a in t["args"]]
+            args = [_thru_getters(prog, re.sub(r"\barg1\.\d+\b", lambda m: up.get(m.group(0), m.group(0)), expr(bi, a))) for a in t["args"]]
             callers.setdefault(_root_of(prog, b), []).append((b.path, args))
     exp = {
         PC: {"width": r"^TerminalWriter::size\(arg1\)\.width$", "wraps": r"^arg1\.wraps$"},
@@ -617,8 +707,20 @@ def run(ctx):
                     char_w = re.sub(r"arg1\.kind@Char\.0", "C", e)
         CHARS = r"str::chars\(Glyph::fallback_str\(arg1\.kind@Glyph\.0\)\)"
 
+        # closures built anywhere in the (helper-expanded) body: short name -> def paths; a closure of an expanded helper is `helper::{closure#k}`
+        cl_defs = {}
+        for i, si, s_ in cs.assigns():
+            if s_["rv"]["k"] == "agg" and s_["rv"]["ak"] == "closure":
+                d_ = s_["rv"]["def"]
+                if d_ not in cl_defs.setdefault(d_.split("::")[-1], []):
+                    cl_defs[d_.split("::")[-1]].append(d_)
+        origin = [cs.path]      # function the term being read was written in (the expanded helper for blocks that carry inl_from)
+
         def _closure_ret(name, subst):
-            cb = prog.inlined("render::Cell::size::" + name) if prog.body("render::Cell::size::" + name) is not None else None
+            cands = cl_defs.get(name, [])
+            if len(cands) > 1:
+                cands = [d_ for d_ in cands if d_ == origin[0] + "::" + name]
+            cb = prog.inlined(cands[0]) if len(cands) == 1 and prog.body(cands[0]) is not None else None
             if cb is None:
                 return None, None
             e = expr(cb, {"k": "copy", "place": {"l": 0, "p": []}})
@@ -678,6 +780,7 @@ def run(ctx):
         # or chars().fold(0, |acc, c| acc + f(c))
         totals, cl_w, n_tot = [], None, 0
         for bb, t in cs.calls():
+            origin[0] = cs.blocks[bb].get("inl_from") or cs.path
             if call_matches(t, r"Iterator::sum$"):
                 n_tot += 1
                 r_ = _item_term(expr(cs, t["args"][0]), True)
